@@ -11,16 +11,19 @@ use std::pin::Pin;
 use std::task::{Context, Poll, Waker};
 use std::time::Duration;
 
-/// One virtual tick, in seconds. Large so that the handful of places that read
-/// the real `Instant::now()` round to the intended tick.
-pub const TICK_SECS: u64 = 1000;
+/// One virtual tick, in nanoseconds: a thousand seconds, so that the handful of
+/// places that read the real `Instant::now()` round to the intended tick, plus
+/// half a millisecond and a nanosecond, so that a duration that is silently
+/// rounded to whole milliseconds (or microseconds) on its way to the timer seam
+/// is no longer one of the configured durations.
+pub const TICK_NANOS: u64 = 1_000_000_500_001;
 
 pub fn ticks(n: u64) -> Duration {
-  Duration::from_secs(n * TICK_SECS)
+  Duration::from_nanos(n * TICK_NANOS)
 }
 
 pub fn to_ticks(d: Duration) -> u64 {
-  (d.as_secs() + TICK_SECS / 2) / TICK_SECS
+  ((d.as_nanos() + TICK_NANOS as u128 / 2) / TICK_NANOS as u128) as u64
 }
 
 struct Timer {
